@@ -412,6 +412,17 @@ class DiscriminatedUnionUnpackerBuilder(AbstractUnpackerBuilder):
                     f"raise MissingDiscriminatorError({discriminator.field!r})"
                     " from None"
                 )
+            with lines.indent("except TypeError:"):
+                # value[...] on a list, str, int, None...: same answer as
+                # from_dict gives for a non-mapping argument
+                with lines.indent("if not isinstance(value, dict):"):
+                    not_a_dict_msg = (
+                        f"Argument for {type_name(spec.type)} discriminated "
+                        f"by {discriminator.field!r} should be a dict instance"
+                    )
+                    lines.append(f"raise ValueError({not_a_dict_msg!r}) from None")
+                with lines.indent("else:"):
+                    lines.append("raise")
             with lines.indent("try:"):
                 if spec.builder.is_nailed:
                     lines.append(f"return {chosen_cls}.{variant_method_call}")
